@@ -11,12 +11,16 @@ the state at every depth (a larger state dominates: what `MergeOk` needs), the r
 costs are bounded.  The three conditions are decidable (`check`).  The width is a *function* of the sub-problem
 (`max 1 (ws[depth · m + state])`), both cut-set kinds and both fringes are available.
 
-**Result** (end of the file): `AnyOrder` is **false**.  `Counter` (3 states, width 1 at depths 0–1 and 2 below, five turns,
-both cut-set kinds, both fringes), `Fixed` (4 states, `FixedWidth(2)`, last-exact-layer cut-set, six turns) and `Hand` are
-`check`ed (hence `WellFormed`) models on which the caching solver popping **breadth-first** (shallowest sub-problem first)
-ends with the empty fringe, `is_exact = true` and the value 4 while the optimum is 10 (resp. 6); all by `decide`
+**Result** (end of the file): for the **pre-fix solver** — `enqueue_cutset(ub)` capping the bound of every cut-set node by the
+bound of the processed node, `SolverCfg.kturnCapped` / `ksolveSchedCapped` of `Proofs/CacheClosedDefs.lean` — `AnyOrder` is
+**false** (finding D14).  `Counter` (3 states, width 1 at depths 0–1 and 2 below, five turns, both cut-set kinds, both
+fringes), `Fixed` (4 states, `FixedWidth(2)`, last-exact-layer cut-set, six turns) and `Hand` are `check`ed (hence
+`WellFormed`) models on which the capped caching solver popping **breadth-first** (shallowest sub-problem first) ends with
+the empty fringe, `is_exact = true` and the value 4 while the optimum is 10 (resp. 6); all by `decide`
 (`Counter.anyorder_counter`, `Counter.not_anyOrder`, `Fixed.anyorder_counter`, `Hand.anyorder_counter`).  Best-first pops
-return the optimum on the same models (`bestfirst_value`). -/
+return the optimum on the same models, with the capped solver and with the repaired one (`bestfirst_value`,
+`bestfirst_value_capped`).  The repaired solver (no cap: `SolverCfg.kturn` / `ksolveSched`) returns the optimum for every pop
+order (`Ddo.C09.caching_solver_correct`; on `Counter`: `Ddo.C09.Layered.Counter.nocap_bfs_value` in `Props/C09d.lean`). -/
 set_option linter.unusedSectionVars false
 set_option linter.unusedVariables false
 namespace Ddo.C09.Layered
@@ -261,7 +265,8 @@ def optimum (T : Tab) : Int := hfrom T T.n 0
 theorem optimum_eq (T : Tab) : (H T 0 (prob T).init).addI (prob T).initVal = some (optimum T) := by
   simp [H, prob, optimum, EInt.addI, st]
 
-/-! ## runs with an arbitrary pop order: `Ddo.C09.KRunAny`, `Ddo.C09.ksolveSched_run` (`Proofs/CacheClosedDefs.lean`) -/
+/-! ## runs with an arbitrary pop order: `Ddo.C09.KRunAny`, `Ddo.C09.ksolveSched_run` (the solver), `Ddo.C09.KRunAnyCapped`,
+`Ddo.C09.ksolveSchedCapped_run` (the pre-fix solver) — `Proofs/CacheClosedDefs.lean` -/
 
 /-- what the traces below show of a state: the fringe as `(state, value, ub, depth)` (newest push first) and the incumbent -/
 def view (s : KSt Int) : List (Int × Int × Int × Nat) × Int :=
@@ -272,7 +277,10 @@ def cacheAt (s : KSt Int) (d : Nat) : List (Int × Int × Bool) :=
 
 end Ddo.C09.Layered
 
-/-! ## `AnyOrder` is false: a well-formed model on which a breadth-first pop order loses the optimum
+/-! ## `AnyOrder` is false for the pre-fix (capped) solver: a well-formed model on which a breadth-first pop order loses the optimum
+
+Everything in this section is a statement about the solver **before the repair of D14** (`ksolveSchedCapped`,
+`kturnCapped`: `enqueue_cutset(ub)` with `cutset_node.ub = ub.min(cutset_node.ub)`), except `bestfirst_value`.
 
 **The model** (`Counter.T`): 7 binary variables `x0 … x6` in static order (variable `k` is decided at depth `k`), domain
 `[0, 1]` enumerated in that order, 3 states `0, 1, 2`, initial state `0`, initial value `0`.  Transition / cost tables
@@ -297,7 +305,8 @@ are at state 2 at depth 5 with value 0 and take `x5 = 0`, `x6 = 0`: through `A` 
 **The relaxation**: `merge X` = the largest state of `X`, `relax` = identity on the costs, `fast_upper_bound` = 20 (constant).
 State ranking: the larger state is the better one (`icmp`).  **Width**: 1 for sub-problems of depth 0 and 1, 2 for
 sub-problems of depth ≥ 2.  No dominance, no cutoff, `SimpleCache`.  `WellFormed` holds (`Counter.wellFormed`), so with
-best-first pops every configuration returns 10 (`caching_solver_correct`; `Counter.bestfirst_value`: 9 turns).
+best-first pops every configuration returns 10 (`Counter.bestfirst_value_capped`; the repaired solver returns 10 for every pop
+order, `caching_solver_correct`, best-first: `Counter.bestfirst_value`).
 
 **The pop order**: breadth-first — the shallowest open sub-problem first, among those of equal depth the one with the larger
 state.  (`SubProblemRanking::compare(a, b)` = `b.depth.cmp(a.depth)` then `a.state.cmp(b.state)`: the fringe pops the greatest
@@ -359,8 +368,22 @@ def sched : Bool → CutsetKind → List Nat
   | false, .frontier => [0, 0, 1, 0, 0]
   | true, .frontier => [0, 1, 0, 1, 0]
 
-/-- the state after the first `j` turns of the schedule (plain fringe, last-exact-layer cut-set) -/
-def after (j : Nat) : KSt Int := (sv false .lel).ksolveSched ((sched false .lel).take j) (KSt.init (sv false .lel))
+/-- the state of the **pre-fix (capped)** solver after the first `j` turns of the schedule (plain fringe, last-exact-layer
+    cut-set) -/
+def after (j : Nat) : KSt Int := (sv false .lel).ksolveSchedCapped ((sched false .lel).take j) (KSt.init (sv false .lel))
+
+/-- the breadth-first pop order of the **repaired (no-cap)** solver as indices into the fringe list, per configuration
+    (seven turns: the cut-set nodes that the pre-fix solver dropped at turn 4 are enqueued; `Props/C09d.lean`,
+    `nocap_bfs_value`) -/
+def schedNC : Bool → CutsetKind → List Nat
+  | false, .lel => [0, 1, 1, 0, 2, 1, 0]
+  | true, .lel => [0, 0, 0, 1, 0, 0, 0]
+  | false, .frontier => [0, 0, 1, 0, 2, 1, 0]
+  | true, .frontier => [0, 1, 0, 1, 0, 0, 0]
+
+/-- the state of the repaired (no-cap) solver after the first `j` turns of `schedNC` (plain fringe, last-exact-layer
+    cut-set) -/
+def afterNC (j : Nat) : KSt Int := (sv false .lel).ksolveSched ((schedNC false .lel).take j) (KSt.init (sv false .lel))
 
 theorem checked : check T 10 = true := by decide
 
@@ -371,25 +394,35 @@ theorem wellFormed (dedup : Bool) (kind : CutsetKind) : WellFormed (sv dedup kin
 theorem opt10 : (H T 0 (prob T).init).addI (prob T).initVal = some 10 := by decide
 
 set_option maxRecDepth 100000 in
-/-- **the counter-example to `AnyOrder`**: the model is well formed (`check`), its optimum is 10, and the caching solver
-    popping in breadth-first order ends after five turns with the empty fringe, `is_exact = true` and `best_value = Some(4)` -/
+/-- **the counter-example to `AnyOrder`** (pre-fix solver, D14): the model is well formed (`check`), its optimum is 10, and
+    the **capped** caching solver popping in breadth-first order ends after five turns with the empty fringe,
+    `is_exact = true` and `best_value = Some(4)` -/
 theorem anyorder_counter : check T 10 = true ∧ (H T 0 (prob T).init).addI (prob T).initVal = some 10 ∧
-    ((sv false .lel).ksolveSched (sched false .lel) (KSt.init (sv false .lel))).st.fringe.length = 0 ∧
-    ((sv false .lel).ksolveSched (sched false .lel) (KSt.init (sv false .lel))).st.completion = (true, some 4) := by decide
+    ((sv false .lel).ksolveSchedCapped (sched false .lel) (KSt.init (sv false .lel))).st.fringe.length = 0 ∧
+    ((sv false .lel).ksolveSchedCapped (sched false .lel) (KSt.init (sv false .lel))).st.completion = (true, some 4) := by decide
 
 set_option maxRecDepth 100000 in
 /-- the same with the duplicate-free fringe and / or the frontier cut-set; nothing panics -/
 theorem anyorder_counter_all : ∀ dedup ∈ [false, true], ∀ kind ∈ [CutsetKind.lel, CutsetKind.frontier],
-    ((sv dedup kind).ksolveSched (sched dedup kind) (KSt.init (sv dedup kind))).st.fringe.length = 0 ∧
-    ((sv dedup kind).ksolveSched (sched dedup kind) (KSt.init (sv dedup kind))).st.completion = (true, some 4) ∧
-    ((sv dedup kind).ksolveSched (sched dedup kind) (KSt.init (sv dedup kind))).st.explored = 5 ∧
-    ((sv dedup kind).ksolveSched (sched dedup kind) (KSt.init (sv dedup kind))).st.crashed = false := by decide
+    ((sv dedup kind).ksolveSchedCapped (sched dedup kind) (KSt.init (sv dedup kind))).st.fringe.length = 0 ∧
+    ((sv dedup kind).ksolveSchedCapped (sched dedup kind) (KSt.init (sv dedup kind))).st.completion = (true, some 4) ∧
+    ((sv dedup kind).ksolveSchedCapped (sched dedup kind) (KSt.init (sv dedup kind))).st.explored = 5 ∧
+    ((sv dedup kind).ksolveSchedCapped (sched dedup kind) (KSt.init (sv dedup kind))).st.crashed = false := by decide
 
 set_option maxRecDepth 100000 in
-/-- with best-first pops the same solver returns the optimum (as `caching_solver_correct` predicts), in nine turns -/
+/-- with best-first pops the (repaired, no-cap) solver returns the optimum (as `caching_solver_correct` predicts), in nine
+    turns -/
 theorem bestfirst_value : ((sv false .lel).ksolveLoop 12 (KSt.init (sv false .lel))).st.completion = (true, some 10) ∧
     ((sv false .lel).ksolveLoop 12 (KSt.init (sv false .lel))).st.fringe.length = 0 ∧
     ((sv false .lel).ksolveLoop 12 (KSt.init (sv false .lel))).st.explored = 9 := by decide
+
+set_option maxRecDepth 100000 in
+/-- with best-first pops the pre-fix (capped) solver returns the optimum too, in nine turns: the cap is harmless when the
+    popped node has the largest bound -/
+theorem bestfirst_value_capped :
+    ((sv false .lel).ksolveLoopCapped 12 (KSt.init (sv false .lel))).st.completion = (true, some 10) ∧
+    ((sv false .lel).ksolveLoopCapped 12 (KSt.init (sv false .lel))).st.fringe.length = 0 ∧
+    ((sv false .lel).ksolveLoopCapped 12 (KSt.init (sv false .lel))).st.explored = 9 := by decide
 
 /-! ### the stages of the mechanism, turn by turn -/
 
@@ -414,19 +447,19 @@ set_option maxRecDepth 100000 in
 /-- turn 5 pops `k2`: `must_explore` accepts it, both its compilations prune a node with the cache, nothing is left -/
 theorem stage_end : (after 4).cache.mustExplore 2 4 0 = some true ∧ view (after 5) = ([], 4) := by decide
 
-/-- **`AnyOrder` fails**: a well-formed model and a run of the caching solver with arbitrary pops (`KStepAny`) that ends with
-    the empty fringe, without panic, and reports a value that is not the optimum -/
+/-- **`AnyOrder` fails for the pre-fix solver**: a well-formed model and a run of the capped caching solver with arbitrary
+    pops (`KStepAnyCapped`) that ends with the empty fringe, without panic, and reports a value that is not the optimum -/
 theorem not_anyOrder : ∃ (sv : CSolverCfg Int) (H : Nat → Int → EInt) (B0 B : Int), WellFormed sv H B0 B ∧
-    ∃ t opt, KRunAny sv (KSt.init sv) t ∧ t.st.fringe = [] ∧ t.st.crashed = false ∧
+    ∃ t opt, KRunAnyCapped sv (KSt.init sv) t ∧ t.st.fringe = [] ∧ t.st.crashed = false ∧
       (H 0 sv.P.init).addI sv.P.initVal = some opt ∧ t.st.completion ≠ (true, some opt) := by
-  refine ⟨sv false .lel, H T, 10, 80, wellFormed false .lel, _, 10, ksolveSched_run (sv false .lel) (sched false .lel) _,
+  refine ⟨sv false .lel, H T, 10, 80, wellFormed false .lel, _, 10, ksolveSchedCapped_run (sv false .lel) (sched false .lel) _,
     List.eq_nil_of_length_eq_zero anyorder_counter.2.2.1, ?_, opt10, ?_⟩
   · exact (anyorder_counter_all false (by simp) .lel (by simp)).2.2.2
   · rw [anyorder_counter.2.2.2]; decide
 
 end Ddo.C09.Layered.Counter
 
-/-! ## the same with `FixedWidth(2)`
+/-! ## the same with `FixedWidth(2)` (pre-fix, capped solver)
 
 `Fixed.T`: 7 binary variables, 4 states `0 … 3`, same relaxation (merge = largest state, constant rough upper bound 20),
 **width 2 for every sub-problem**, last-exact-layer cut-set, either fringe, breadth-first pops (shallowest first, then the
@@ -479,7 +512,8 @@ def sched : Bool → List Nat
   | false => [0, 1, 2, 0, 1, 0]
   | true => [0, 0, 0, 2, 0, 0]
 
-def after (j : Nat) : KSt Int := (sv false).ksolveSched ((sched false).take j) (KSt.init (sv false))
+/-- the state of the pre-fix (capped) solver after the first `j` turns of the schedule -/
+def after (j : Nat) : KSt Int := (sv false).ksolveSchedCapped ((sched false).take j) (KSt.init (sv false))
 
 theorem checked : check T 10 = true := by decide
 
@@ -498,20 +532,26 @@ theorem width2 (dedup : Bool) (N : SubP Int) (hN : N.depth ≤ 7) : (sv dedup).w
 theorem opt10 : (H T 0 (prob T).init).addI (prob T).initVal = some 10 := by decide
 
 set_option maxRecDepth 100000 in
-/-- **the counter-example with `FixedWidth(2)`**: well formed, optimum 10, the breadth-first order ends after six turns with the
-    empty fringe, `is_exact = true` and `best_value = Some(4)` (either fringe; nothing panics) -/
+/-- **the counter-example with `FixedWidth(2)`** (pre-fix, capped solver): well formed, optimum 10, the breadth-first order
+    ends after six turns with the empty fringe, `is_exact = true` and `best_value = Some(4)` (either fringe; nothing panics) -/
 theorem anyorder_counter : check T 10 = true ∧ (H T 0 (prob T).init).addI (prob T).initVal = some 10 ∧
     ∀ dedup ∈ [false, true],
-      ((sv dedup).ksolveSched (sched dedup) (KSt.init (sv dedup))).st.fringe.length = 0 ∧
-      ((sv dedup).ksolveSched (sched dedup) (KSt.init (sv dedup))).st.completion = (true, some 4) ∧
-      ((sv dedup).ksolveSched (sched dedup) (KSt.init (sv dedup))).st.explored = 6 ∧
-      ((sv dedup).ksolveSched (sched dedup) (KSt.init (sv dedup))).st.crashed = false := by decide
+      ((sv dedup).ksolveSchedCapped (sched dedup) (KSt.init (sv dedup))).st.fringe.length = 0 ∧
+      ((sv dedup).ksolveSchedCapped (sched dedup) (KSt.init (sv dedup))).st.completion = (true, some 4) ∧
+      ((sv dedup).ksolveSchedCapped (sched dedup) (KSt.init (sv dedup))).st.explored = 6 ∧
+      ((sv dedup).ksolveSchedCapped (sched dedup) (KSt.init (sv dedup))).st.crashed = false := by decide
 
 set_option maxRecDepth 100000 in
-/-- with best-first pops: the optimum, in nine turns -/
+/-- with best-first pops (the repaired, no-cap solver): the optimum, in nine turns -/
 theorem bestfirst_value : ((sv false).ksolveLoop 12 (KSt.init (sv false))).st.completion = (true, some 10) ∧
     ((sv false).ksolveLoop 12 (KSt.init (sv false))).st.fringe.length = 0 ∧
     ((sv false).ksolveLoop 12 (KSt.init (sv false))).st.explored = 9 := by decide
+
+set_option maxRecDepth 100000 in
+/-- with best-first pops, the pre-fix (capped) solver: the optimum, in nine turns -/
+theorem bestfirst_value_capped : ((sv false).ksolveLoopCapped 12 (KSt.init (sv false))).st.completion = (true, some 10) ∧
+    ((sv false).ksolveLoopCapped 12 (KSt.init (sv false))).st.fringe.length = 0 ∧
+    ((sv false).ksolveLoopCapped 12 (KSt.init (sv false))).st.explored = 9 := by decide
 
 set_option maxRecDepth 100000 in
 /-- after turn 3: `N` is open with `ub = 4 < 10 = pot(N)`, `k2 = (3, 0, 11, 4)` is open with a larger bound -/
@@ -526,7 +566,7 @@ theorem stage_cprime : view (after 4) = ([(1, 0, 12, 4), (3, 0, 11, 4)], 4) ∧
 
 end Ddo.C09.Layered.Fixed
 
-/-! ## a third, independently hand-made instance (4 states, optimum 6, small costs)
+/-! ## a third, independently hand-made instance (4 states, optimum 6, small costs; pre-fix, capped solver)
 
 Rows per variable and state `(next0, cost0, next1, cost1)`, padded to 4 states by repeating the last row:
 `x0: (1,0,0,1)`; `x1: (2,0,2,0), (1,0,0,1)`; `x2: (0,0,0,0), (1,0,1,0), (2,0,2,0)`; `x3: (0,1,2,0), (1,0,3,0), (3,0,3,0)`;
@@ -557,10 +597,17 @@ theorem wellFormed : WellFormed sv (H T) 5 40 :=
   wellFormed_ofTables T 5 40 ws false .lel checked (by decide) (by decide)
 
 set_option maxRecDepth 100000 in
+/-- the pre-fix (capped) solver: breadth-first pops end with 4, best-first pops with the optimum 6 -/
 theorem anyorder_counter : check T 5 = true ∧ (H T 0 (prob T).init).addI (prob T).initVal = some 6 ∧
-    (sv.ksolveSched sched (KSt.init sv)).st.fringe.length = 0 ∧
-    (sv.ksolveSched sched (KSt.init sv)).st.completion = (true, some 4) ∧
-    (sv.ksolveLoop 20 (KSt.init sv)).st.completion = (true, some 6) := by decide
+    (sv.ksolveSchedCapped sched (KSt.init sv)).st.fringe.length = 0 ∧
+    (sv.ksolveSchedCapped sched (KSt.init sv)).st.completion = (true, some 4) ∧
+    (sv.ksolveLoopCapped 20 (KSt.init sv)).st.completion = (true, some 6) := by decide
+
+set_option maxRecDepth 100000 in
+/-- with best-first pops the repaired (no-cap) solver returns the optimum, in six turns -/
+theorem bestfirst_value : (sv.ksolveLoop 20 (KSt.init sv)).st.completion = (true, some 6) ∧
+    (sv.ksolveLoop 20 (KSt.init sv)).st.fringe.length = 0 ∧
+    (sv.ksolveLoop 20 (KSt.init sv)).st.explored = 6 := by decide
 
 end Ddo.C09.Layered.Hand
 
@@ -569,7 +616,10 @@ end Ddo.C09.Layered.Hand
 #print axioms Ddo.C09.Layered.Counter.anyorder_counter
 #print axioms Ddo.C09.Layered.Counter.anyorder_counter_all
 #print axioms Ddo.C09.Layered.Counter.bestfirst_value
+#print axioms Ddo.C09.Layered.Counter.bestfirst_value_capped
 #print axioms Ddo.C09.Layered.Counter.not_anyOrder
 #print axioms Ddo.C09.Layered.Fixed.anyorder_counter
 #print axioms Ddo.C09.Layered.Fixed.bestfirst_value
+#print axioms Ddo.C09.Layered.Fixed.bestfirst_value_capped
 #print axioms Ddo.C09.Layered.Hand.anyorder_counter
+#print axioms Ddo.C09.Layered.Hand.bestfirst_value
